@@ -564,6 +564,22 @@ R20.6 exit status: ErrNoNewVersion maps to the distinct non-zero code, any other
 	}
 	c.Check(okNoNewCode && code != 0 && code != 1, "R20.6", "NewTagCmd|nothing-to-do-status", r.Pos(ntc.Pos()), fmt.Sprintf("ErrNoNewVersion -> exit %d", code), "ErrNoNewVersion is not mapped to a distinct non-zero exit status")
 	c.Check(okOther, "R20.6", "NewTagCmd|error-status", r.Pos(ntc.Pos()), "other errors -> exit 1", "other errors do not exit with status 1")
+	// ---- R20.6: "nothing to do" and refusals are signalled: every path of Tag that returns without having
+	// reached createTag returns an error (mechanical-mutation finding: the dirty-tree refusal returning nil)
+	if tagFd := FuncDecl(p, "Tagger.Tag"); tagFd != nil {
+		paths, _ := enumerateFunc(info, tagFd)
+		okSig := len(paths) > 0
+		whySig := ""
+		for _, q := range paths {
+			if q.Exit != "return" || len(q.Ret) == 0 {
+				continue
+			}
+			if len(q.CallsTo("Tagger).createTag")) == 0 && q.Ret[len(q.Ret)-1] == "nil" {
+				okSig, whySig = false, q.String()
+			}
+		}
+		c.Check(okSig, "R20.6", "Tag|refusal-signalled", r.Pos(tagFd.Pos()), "a run that tags nothing reports an error", "Tag returns a nil error on a path that never reaches createTag: a refusal (dirty tree, not a newer version, a failed lookup) exits with status 0: "+whySig)
+	}
 	// ---- R20.3/R20.4: no error observed anywhere in the tool is swallowed (an error while reading the
 	// existing tags would make the maximum too small and let an older version be tagged)
 	for _, fd := range pkgFuncDecls(p) {
